@@ -410,3 +410,9 @@ def r_sib_r_c13_11(ctx):
 def r_sib_r_c13_12(ctx):
     from .c06 import r1 as automaton_equals_unicode
     automaton_equals_unicode(ctx)
+
+
+@rule("R-C13-13", min_instances=2, title="trace logging does not change what the receive loop delivers: a fragment that ends inside a multi-byte character is not decoded for the log (no UnicodeDecodeError tears the connection down before the message is complete)")
+def r_sib_r_c13_13(ctx):
+    from .c01 import r8 as trace_equivalence
+    trace_equivalence(ctx)
